@@ -140,8 +140,17 @@ fn get_text_position(element: &mut SvgElement) -> Result<(f32, f32, bool, LocSpe
     // Assumption is that text should be centered within the rect,
     // and has styling via CSS to reflect this, e.g.:
     //  text.d-text { dominant-baseline: central; text-anchor: middle; }
-    let (mut tdx, mut tdy) = element
-        .bbox()?
+    // A `text` element becomes the generated text itself and keeps its own `transform`,
+    // so it is anchored in its own coordinates: applying the transform to the anchor as
+    // well would move the text twice.
+    let bbox = if element.name == "text" && element.has_attr("transform") {
+        let mut untransformed = element.clone();
+        untransformed.pop_attr("transform");
+        untransformed.bbox()?
+    } else {
+        element.bbox()?
+    };
+    let (mut tdx, mut tdy) = bbox
         .ok_or_else(|| SvgdxError::MissingBoundingBox(element.to_string()))?
         .locspec(text_anchor);
     tdx += t_dx;
